@@ -20,8 +20,10 @@ type Harness struct {
 	PkgName string
 	Src     []byte
 	Subst   [][2]string // (package dir, import path) pairs: that package imports the model instead
+	Use     []string    // model package directories under /verif/harness to add as /repo/internal/<dir>
 }
 
+var useRE = regexp.MustCompile(`(?m)^//zz:use\s+(\w+)`)
 var substRE = regexp.MustCompile(`(?m)^//zz:subst\s+(\S+)\s+(\S+)`)
 
 // substModel maps a substituted import path to the model package directory
@@ -59,6 +61,9 @@ func ReadHarnesses(dir string) ([]Harness, error) {
 		h := Harness{File: filepath.Join(dir, e.Name()), PkgDir: string(m[1]), PkgName: string(n[1]), Src: b}
 		for _, sm := range substRE.FindAllSubmatch(b, -1) {
 			h.Subst = append(h.Subst, [2]string{string(sm[1]), string(sm[2])})
+		}
+		for _, um := range useRE.FindAllSubmatch(b, -1) {
+			h.Use = append(h.Use, string(um[1]))
 		}
 		hs = append(hs, h)
 	}
@@ -101,6 +106,25 @@ func Overlay(repo, verif string, hs []Harness) (map[string][]byte, []string, err
 		}
 	}
 	pats = append(pats, "./internal/zzmodel")
+	// shared model packages requested by a harness (//zz:use <dir>)
+	for _, h := range hs {
+		for _, d := range h.Use {
+			udir := filepath.Join(verif, "harness", d)
+			ents, err := os.ReadDir(udir)
+			if err != nil {
+				return nil, nil, err
+			}
+			for _, e := range ents {
+				if strings.HasSuffix(e.Name(), ".go") {
+					b, err := os.ReadFile(filepath.Join(udir, e.Name()))
+					if err != nil {
+						return nil, nil, err
+					}
+					ov[filepath.Join(repo, "internal", d, e.Name())] = b
+				}
+			}
+		}
+	}
 	// import substitutions: the package's files import the model package
 	// under the original name (regenerated from /repo's current source)
 	done := map[[2]string]bool{}
